@@ -13,7 +13,7 @@ META = {
                    "updated map and a key conflict returns false (V2); a node is accepted only on equal name-free shapes (V3); the "
                    "multi-pattern state is kept canonical: after a slot union every stored slot is re-canonicalised and the "
                    "disequality constraint is tested in both directions before two slots are linked (V7, V8); matching is read-only "
-                   "(V5: receiver types, call-graph closure, union-find setter reachability; compile-fail witnesses in the thorough tier).",
+                   "(V5: receiver types, call-graph closure, union-find setter reachability; compile-fail witnesses in the thorough tier). V9/V10: the slots of each e-node handed out are declared pairwise distinct (all occurrences, per node); the multi-pattern node matcher accepts only nodes of the pattern node's name-free shape and registers the pattern's own slots before unifying them.",
     "not_decided": "that the instantiated pattern is represented, as a behavioural fact",
     "assumptions": ["no unsafe code (C08.U0)"],
 }
